@@ -328,14 +328,15 @@ Definition is_continuation (pr : list (str * option str)) : bool :=
 Definition close_table_cell (v : env) (e : einfo) (ks : list anode) (s : cst) : res cst :=
   pr <- gather_Pr e ks ;;
   let root := c_tree s in
-  rows0 <- match root with
-           | [] => Err IndexError
-           | t :: _ => as_list t
-           end ;;
-  _ <- match rows0 with
-       | [] => Err IndexError
-       | r :: _ => as_list r
-       end ;;
+  (* if not self.tables.tree or not self.tables.tree[-1]: return *)
+  match root with
+  | [] => Ok s
+  | t0 :: _ =>
+  rows0 <- as_list t0 ;;
+  match rows0 with
+  | [] => Ok s
+  | r0 :: _ =>
+  _ <- as_list r0 ;;
   let ti := (length root - 1)%nat in
   let ri := (length rows0 - 1)%nat in
   (* vertical merge *)
@@ -375,14 +376,16 @@ Definition close_table_cell (v : env) (e : einfo) (ks : list anode) (s : cst) : 
          sa <- set_caret (Some 3%nat) None s ;;
          root' <- upd_row (c_tree sa) ti ri
                     (fun cs =>
+                       (* if do_merge and this_tr: copy the cell to the left; else a blank cell *)
                        if env_dup v then
                          match cs with
-                         | [] => Err IndexError
+                         | [] => Ok (NL [NP new_empty_par] :: cs)
                          | c :: _ => Ok (copy_node c :: cs)
                          end
                        else Ok (NL [NP new_empty_par] :: cs)) ;;
          loop k (set_tree root' sa)
-     end) n s1.
+     end) n s1
+  end end.
 
 (* ---------- final tree in natural (oldest-first) order ---------- *)
 Fixpoint unrev (n : node) : node :=
